@@ -55,6 +55,7 @@ type sfEv struct {
 }
 
 type sfSim struct {
+	tailAll bool
 	rng  *rand.Rand
 	out  *bufio.Writer
 	tid  int
@@ -334,6 +335,29 @@ func (s *sfSim) file(n int, ct pb.CompressionType) {
 		}
 		ev.Flips = append(ev.Flips, p)
 	}
+	if s.tailAll {
+		// every bit of the 16 byte tail record (total size | magic number)
+		for o := len(data) - 16; o < len(data); o++ {
+			for bit := uint(0); bit < 8; bit++ {
+				d := append([]byte{}, data...)
+				d[o] ^= 1 << bit
+				write(fp2, d)
+				gs, gp, failed := s.loadFile(fs, fp2, 1+s.rng.Intn(100000))
+				p := sfPert{Off: o, Res: "fail", VRes: "reject"}
+				if !failed {
+					if bytes.Equal(gs, sess) && bytes.Equal(gp, payload) {
+						p.Res = "same"
+					} else {
+						p.Res = "diff"
+					}
+				}
+				if validate(d, 1+s.rng.Intn(len(d))) {
+					p.VRes = "accept"
+				}
+				ev.Flips = append(ev.Flips, p)
+			}
+		}
+	}
 	cuts := map[int]bool{0: true, 8: true, 1023: true, 1024: true, len(data) - 1: true, len(data) - 8: true,
 		len(data) - 16: true, len(data) - 17: true, len(data) - 20: true}
 	for i := 0; i < 6; i++ {
@@ -436,6 +460,20 @@ func TestVerifSfsim(t *testing.T) {
 					cnt["File"]++
 				}
 			}
+			// stored sizes of the form 2^k (payload + block checksum) or blocks + 2^k: one flipped
+			// bit of the recorded total then names another block boundary (or nothing at all)
+			ls := len(GetEmptyLRUSession())
+			k := uint(4 + tid%9)
+			s.tailAll = true
+			if n := (1 << k) - 4 - ls; n >= 0 {
+				s.file(n, pb.NoCompression)
+				cnt["File"]++
+			}
+			if big > 0 {
+				s.file(bs+(1<<k)-4-ls, pb.NoCompression)
+				cnt["File"]++
+			}
+			s.tailAll = false
 		}()
 	}
 	fmt.Printf("SFSIM-STATS %v\n", cnt)
